@@ -336,3 +336,5 @@ def run(chk, facts, tier):
     same_residuals(chk, facts)
     from rules import c14_canerr
     c14_canerr.check(chk, facts)
+    from rules import c02_ops
+    c02_ops.check_tpe(chk, facts)
